@@ -55,6 +55,7 @@ var zooTypes = []reflect.Type{
 	reflect.TypeOf(xv1.Entry{}), reflect.TypeOf(yv1.Invoice{}), reflect.TypeOf(xv1.Entry{}), reflect.TypeOf(yv1.Invoice{}),
 	reflect.TypeOf(za.EmbTag{}), reflect.TypeOf(za.EmbTag{}),
 	reflect.TypeOf(za.Holder{}), reflect.TypeOf(za.Holder{}),
+	reflect.TypeOf(za.EmbScalar{}), reflect.TypeOf(za.EmbScalarPtr{}),
 }
 
 var structOfFieldTypes = []reflect.Type{
